@@ -112,11 +112,12 @@ impl World {
     fn bytes_id(&self, name: &str, b: &[u8]) -> u64 {
         self.content_id(name, &sha256_hex(b))
     }
-    fn version_args(&self, v: &Value) -> Vec<String> {
-        // a different expiration for every role
-        vec!["--targets-version".into(), v["tg"].to_string(), "--targets-expires".into(), "2090-01-03T00:00:00Z".into(),
-             "--snapshot-version".into(), v["sn"].to_string(), "--snapshot-expires".into(), "2090-01-02T00:00:00Z".into(),
-             "--timestamp-version".into(), v["ts"].to_string(), "--timestamp-expires".into(), FAR.into()]
+    fn version_args(&self, v: &Value, exp: &Value) -> Vec<String> {
+        // a different expiration for every role; an expired role gets a date in 2001
+        let date = |r: &str, day: u32| format!("{}-01-0{day}T00:00:00Z", if exp[r] == true { 2001 } else { 2090 });
+        vec!["--targets-version".into(), v["tg"].to_string(), "--targets-expires".into(), date("tg", 3),
+             "--snapshot-version".into(), v["sn"].to_string(), "--snapshot-expires".into(), date("sn", 2),
+             "--timestamp-version".into(), v["ts"].to_string(), "--timestamp-expires".into(), date("ts", 1)]
     }
     fn signer(&self, role: &str) -> &K {
         let online = self.rot == "online";
@@ -279,9 +280,19 @@ fn inspect_ds(ds: &Path) -> Value {
 /// load a pair of directories with a fresh client shipping root 1 and read every name
 async fn client_view(w: &World, md: &Path, td: &Path) -> Value {
     let root = std::fs::read(&w.root1).unwrap();
-    let r = RepositoryLoader::new(&root, Url::parse(&furl(md)).unwrap(), Url::parse(&furl(td)).unwrap()).load().await;
+    let mut expired = Value::Null;
+    let mut r = RepositoryLoader::new(&root, Url::parse(&furl(md)).unwrap(), Url::parse(&furl(td)).unwrap()).load().await;
+    if let Err(e) = &r {
+        let c = classify(e);
+        if c.starts_with("Expired:") {
+            // an enforcing client refuses; look at the repository the way --allow-expired-repo does
+            expired = json!(c);
+            r = RepositoryLoader::new(&root, Url::parse(&furl(md)).unwrap(), Url::parse(&furl(td)).unwrap())
+                .expiration_enforcement(tough::ExpirationEnforcement::Unsafe).load().await;
+        }
+    }
     match r {
-        Err(e) => json!({"loads": false, "err": classify(&e), "detail": format!("{e}").chars().take(200).collect::<String>()}),
+        Err(e) => json!({"loads": false, "err": classify(&e), "expired": expired, "detail": format!("{e}").chars().take(200).collect::<String>()}),
         Ok(repo) => {
             let mut read = Map::new();
             for n in &w.names {
@@ -298,7 +309,7 @@ async fn client_view(w: &World, md: &Path, td: &Path) -> Value {
                 };
                 read.insert(n.clone(), json!(id));
             }
-            json!({"loads": true, "ver": {"ts": repo.timestamp().signed.version.get(), "sn": repo.snapshot().signed.version.get(), "tg": repo.targets().signed.version.get()},
+            json!({"loads": true, "expired": expired, "ver": {"ts": repo.timestamp().signed.version.get(), "sn": repo.snapshot().signed.version.get(), "tg": repo.targets().signed.version.get()},
                    "root": repo.root().signed.version.get(), "read": read})
         }
     }
@@ -377,7 +388,7 @@ async fn run_behaviour(tuftool: &str, c: &Value) -> Value {
                 let mut a: Vec<String> = vec!["create".into(), "-o".into(), w.p("repo").to_str().unwrap().into(), "--root".into(), w.root1.to_str().unwrap().into(),
                     "--add-targets".into(), d.to_str().unwrap().into()];
                 a.extend(w.key_args());
-                a.extend(w.version_args(&json!({"ts": 1, "sn": 1, "tg": 1})));
+                a.extend(w.version_args(&json!({"ts": 1, "sn": 1, "tg": 1}), &Value::Null));
                 w.tt(&a)
             }
             "foreign" => match foreign_resign(&w) {
@@ -393,7 +404,10 @@ async fn run_behaviour(tuftool: &str, c: &Value) -> Value {
                     a.extend(["--add-targets".into(), d.to_str().unwrap().into()]);
                 }
                 a.extend(w.key_args());
-                a.extend(w.version_args(&cmd["ver"]));
+                a.extend(w.version_args(&cmd["ver"], &cmd["exp"]));
+                if cmd["allow"] == true {
+                    a.push("--allow-expired-repo".into());
+                }
                 w.tt(&a)
             }
             "transfer" => {
@@ -436,7 +450,10 @@ async fn run_behaviour(tuftool: &str, c: &Value) -> Value {
                     "--current-root".into(), old_root.to_str().unwrap().into(), "--new-root".into(), newroot.to_str().unwrap().into(),
                     "--metadata-url".into(), rm_url.clone(), "--targets-url".into(), rt_url.clone()];
                 a.extend(w.key_args());
-                a.extend(w.version_args(&cmd["ver"]));
+                a.extend(w.version_args(&cmd["ver"], &cmd["exp"]));
+                if cmd["allow"] == true {
+                    a.push("--allow-expired-repo".into());
+                }
                 let r = w.tt(&a);
                 if r.0 {
                     w.cur_root = newroot;
@@ -467,6 +484,9 @@ async fn run_behaviour(tuftool: &str, c: &Value) -> Value {
                     for n in names.iter().filter(|n| names_of(&cmd["names"]).contains(n)) {
                         a.extend(["-n".into(), n.clone()]);
                     }
+                }
+                if cmd["allow"] == true {
+                    a.push("--allow-expired-repo".into());
                 }
                 if act == "download" {
                     a.push(w.p("dl").to_str().unwrap().into());
